@@ -29,9 +29,11 @@ def run(ctx):
     cfgs = [c + (None,) for c in cfgs] + [("asm", "gcc", tr) for tr in ([(2, 1, 2), (3, 2, 3), (2, 2, 4), (3, 3, 3)] if not t else [x for x in build.ALL_TRIPLES if x != build.DEFAULT_TRIPLE])]
     if t:
         cfgs += [("c32", "gcc", (2, 1, 2)), ("c64", "clang", (3, 3, 3))]
-    cfgs = [c + ((),) for c in cfgs] + [("asm", "gcc", None, NOPROBE), ("c32", "clang", None, NOPROBE)] + ([("generic", "gcc", (3, 3, 3), NOPROBE)] if t else [])
+    # CMake's other build types: MinSizeRel (-Os -DNDEBUG) and RelWithDebInfo (-O2 -g -DNDEBUG) -- assertion-free and size-optimised code
+    OTHER = [("asm", "gcc", None, ["-DCMAKE_BUILD_TYPE=MinSizeRel"]), ("c32", "clang", None, ["-DCMAKE_BUILD_TYPE=RelWithDebInfo"])] + ([("generic", "gcc", None, ["-DCMAKE_BUILD_TYPE=RelWithDebInfo"]), ("c64", "clang", None, ["-DCMAKE_BUILD_TYPE=MinSizeRel"])] if t else [])
+    cfgs = [c + ((),) for c in cfgs] + [("asm", "gcc", None, NOPROBE), ("c32", "clang", None, NOPROBE)] + ([("generic", "gcc", (3, 3, 3), NOPROBE)] if t else []) + OTHER
     for be, cc, tr, more in cfgs:
-        name = "%s-%s-release%s%s" % (be, cc, "" if tr is None else "-k%dd%dm%d" % tr, "-no-explicit_bzero" if more else "")
+        name = "%s-%s-release%s%s" % (be, cc, "" if tr is None else "-k%dd%dm%d" % tr, ("-no-explicit_bzero" if more == NOPROBE else "-" + more[0].split("=")[-1]) if more else "")
         try:
             lib = release_lib(be, cc, tr, more)
             c = build.build_prog("c13", ["harness/c13.c", "harness/sysrand.c"], lib, opt="-O3", cfg_dep=True)
@@ -51,6 +53,6 @@ def run(ctx):
     cov = dict(states=ctx.stats.get("states", 0), transitions=ctx.stats.get("transitions", 0),
                traces_validated_against_impl=ctx.stats.get("traces_validated", 0), object_types=ctx.stats.get("object_types", 0),
                rule="27 C object types (incl. the masked permutation states x2-x4 and the TRNG state) and 16 C++ classes x every operation history of length <= %d over a 4-operation alphabet per type x terminal {free | destructor | clear()} x 2 secret assignments, "
-                    "on the CMake Release library of each configuration in %s" % (maxh, [c[0] + "/" + c[1] + ("" if c[2] is None else "/k%dd%dm%d" % c[2]) + ("/no-explicit_bzero" if c[3] else "") for c in cfgs]),
+                    "on the CMake Release library of each configuration in %s" % (maxh, [c[0] + "/" + c[1] + ("" if c[2] is None else "/k%dd%dm%d" % c[2]) + (("/no-explicit_bzero" if c[3] == NOPROBE else "/" + c[3][0].split("=")[-1]) if c[3] else "") for c in cfgs]),
                exhaustive=True)
     return LEVEL, cov
